@@ -295,6 +295,28 @@ def relative_forwarding(rep, an, method, kws_of, callee_names, tier, extra_field
     return out
 
 
+def hull_spans_bounds(rep, res, entry, rule="R-FLOW", limit=4):
+    """every hull a membership test of the estimator is run against is spanned by the captures of the bound combinations: it depends on
+    the capture matrix and on BOTH registered bounds"""
+    seen = set()
+    for mv in res.events("membership_call"):
+        if (mv.loc, mv.text()) in seen or len(seen) >= limit:
+            continue
+        seen.add((mv.loc, mv.text()))
+        Pv = mv.d.get("P")
+        if Pv is None:
+            continue
+        pd = {x.split("|")[0] for x in Pv.flat().data}
+        if not ({"self.A", "self.lb", "self.ub"} & pd):
+            continue            # not a hull of the registered system (e.g. a caller's own point cloud)
+        for o in ("self.A", "self.lb", "self.ub"):
+            rep.check(rule, f"{o} → vertices of the hull tested for membership", o in pd, where=mv.loc, construct=f"{o} → P of {mv.text()[:50]}",
+                      entry=entry, config=res.config,
+                      msg=f"the point set handed to the membership test depends on {sorted(pd)} but not on {o}: it is not the set of captures of "
+                          f"all bound combinations (single sources at their upper bound span the gamut's chromaticities only for lb = 0 and "
+                          f"baseline = 0)")
+
+
 def dim1(rep, res, entry, rule="R-DIM1"):
     """1-wide data (dichromat chromaticities) must not reach qhull"""
     n = 0
